@@ -31,7 +31,7 @@ def correspondence(res, tier, seed):
     from ibicus.utils import gen_PrecipitationHurdleModel, gen_PrecipitationGammaLeftCensoredModel
     r = C.rng_for(seed, "c17-corr")
     n = 60 if tier == "quick" else 600
-    cc = C.CoqCases("c17", ["QL", "Dist", "GenPrecip", "PrecipCorr", "CorrBase"], per_file=200)
+    cc = C.CoqCases("c17", ["QL", "XQ", "Dist", "GenPrecip", "PrecipCorr", "CorrBase"], per_file=200)
     meta = []
     def add(e, m, key):
         cc.add(e); meta.append(m); res.case(key, sample=m if len(res.samples) < 4 else None)
@@ -83,8 +83,25 @@ def correspondence(res, tier, seed):
             Bv = scipy.stats.gamma.ppf(q, *gfit)
             add("close (censored_ppf %s %s %s tt (const_dist 0 %s)) %s %s" % (C.q(thr), B(cin), C.q(q), C.q(Bv), C.q(v), C.q(C.tol_for(v))),
                 dict(func="censored.ppf", q=float(q), thr=thr, censor_in_ppf=cin, impl=float(v)), ("cens-ppf", cin, Bv < thr))
+        # ignore-zeros model: exact zeros, ordinary amounts and very small amounts (flux units: mm/day / 86400)
+        from ibicus.utils import gen_PrecipitationIgnoreZeroValuesModel
+        iz = gen_PrecipitationIgnoreZeroValuesModel()
+        gfit = (r.choice([0.6, 1.0, 2.5]), 0, r.choice([1e-5, 0.5, 3.0]))
+        xs = np.array([0.0, 2.0 ** -r.randint(30, 60), 1e-9, 3e-7, float(r.randint(1, 640)) / 64, 0.0])
+        cv = iz.cdf(xs, *gfit)
+        for x, c in zip(xs, cv):
+            A = scipy.stats.gamma.cdf(x, *gfit)
+            want = "XQ.NInf" if np.isneginf(c) else "(XQ.Fin %s)" % C.q(c)
+            add("xq_close (ignorezeros_cdf (const_dist %s 0) %s tt) %s" % (C.q(A), C.q(x), want),
+                dict(func="ignorezeros.cdf", x=float(x), impl=float(c)), ("iz-cdf", x == 0, x < 1e-8))
+        for q in [-np.inf, 0.25, float(cv[1]), 0.999]:
+            v = float(iz.ppf(np.array([q]), *gfit)[0])
+            Bv = 0.0 if np.isneginf(q) else float(scipy.stats.gamma.ppf(q, *gfit))
+            qq = "XQ.NInf" if np.isneginf(q) else "(XQ.Fin %s)" % C.q(q)
+            add("close (ignorezeros_ppf (const_dist 0 %s) %s tt) %s %s" % (C.q(Bv), qq, C.q(v), C.q(C.tol_for(v))),
+                dict(func="ignorezeros.ppf", q=float(q), impl=v), ("iz-ppf", bool(np.isneginf(q))))
     fails, errors = cc.run()
-    res.components["K7 Gen/GenPrecip.v vs gen_PrecipitationHurdleModel / gen_PrecipitationGammaLeftCensoredModel"] = dict(cases=len(cc.cases), disagreements=len(fails), errors=len(errors))
+    res.components["K7 Gen/GenPrecip.v vs gen_PrecipitationHurdleModel / gen_PrecipitationGammaLeftCensoredModel / gen_PrecipitationIgnoreZeroValuesModel"] = dict(cases=len(cc.cases), disagreements=len(fails), errors=len(errors))
     for e in errors[:3]:
         res.broke("correspondence-error", "K7", e)
     for i in fails[:5]:
@@ -134,14 +151,18 @@ def search(res, tier, seed, deep=False):
                 if np.any(np.abs(back[data > 0][ok] - data[data > 0][ok]) > 1e-6 * np.maximum(1, data[data > 0][ok])):
                     report("hurdle-roundtrip", inp, None, "ppf(cdf(x)) != x for wet values")
             iz = gen_PrecipitationIgnoreZeroValuesModel()
+            # flux units now and then: the same amounts divided by 86400, light drizzle down to 1e-10
+            if i % 3 == 2:
+                data = np.where(data > 0, data / 86400.0 * rs.choice([1.0, 1e-3, 1e-5], size=data.shape), 0.0)
+                wet = np.sort(data[data > 0])
             fit = iz.fit(data)
             c = iz.cdf(data, *fit)
             res.case(("ignore-zeros", dry))
             if not np.all(np.isneginf(c[data == 0])) or np.any(c[data > 0] < 0) or np.any(c[data > 0] > 1):
                 report("ignorezeros-cdf", inp, None, "ignore-zeros cdf: zeros must map to -inf, wet values into [0,1]")
             back = iz.ppf(c, *fit)
-            okw = (c[data > 0] > 1e-12) & (c[data > 0] < 1 - 1e-12)
-            if np.any(back[data == 0] != 0) or np.any(np.abs(back[data > 0][okw] - data[data > 0][okw]) > 1e-6 * np.maximum(1, data[data > 0][okw])):
+            okw = (c[data > 0] > 1e-12) & (c[data > 0] < 1 - 1e-8)
+            if np.any(back[data == 0] != 0) or np.any(np.abs(back[data > 0][okw] - data[data > 0][okw]) > 1e-5 * data[data > 0][okw]):
                 report("ignorezeros-roundtrip", inp, None, "ignore-zeros model: dry must stay 0 and wet values round-trip")
             thr = float(np.quantile(wet, 0.2))
             cmod = gen_PrecipitationGammaLeftCensoredModel(censoring_threshold=thr, censor_in_ppf=True)
